@@ -307,7 +307,9 @@ pub fn run_c14(case: &C14Case, stats: &mut Stats) -> Result<CaseInfo, Failure> {
                 let cov = (y as f64 - y0 as f64) / d;
                 let slack = res.e / d.abs();
                 if i == n10 && n10 >= 1 {
-                    stats.ratio("coverage_at_t/10_distance_from_0.475/0.075", (cov - 0.475).abs() / 0.075);
+                    if slack < 0.001 {
+                        stats.ratio("coverage_at_t/10_distance_from_0.475/0.075(resolution slack<0.1%)", (cov - 0.475).abs() / 0.075);
+                    }
                     if !(cov >= 0.40 - slack && cov <= 0.55 + slack) {
                         return Err(Failure::new(
                             "C14.tenth",
@@ -320,7 +322,9 @@ pub fn run_c14(case: &C14Case, stats: &mut Stats) -> Result<CaseInfo, Failure> {
                     }
                 }
                 if i == n1 {
-                    stats.ratio("uncovered_at_t/0.005", (1.0 - cov) / 0.005);
+                    if slack < 0.001 {
+                        stats.ratio("uncovered_at_t/0.005(resolution slack<0.1%)", (1.0 - cov) / 0.005);
+                    }
                     if !(cov >= 0.995 - slack) {
                         return Err(Failure::new(
                             "C14.full_time",
